@@ -679,6 +679,8 @@ func gen(c *vh.Ctx) {
 		in.Exts = []extIn{{T: "sni", Names: names(c, k, 10, false)}}
 		emit(in, "sni-count")
 	}
+	// 1b. carry boundaries of every length field
+	genCarry(c, emit)
 	// 2. the fixed part: random / timestamp modes, session id sizes, suites, compression methods, version
 	for i := 0; i < 24; i++ {
 		in := baseCfg(c)
@@ -740,6 +742,111 @@ func gen(c *vh.Ctx) {
 			in.Random, in.InsertTS = nil, c.Bool()
 		}
 		emit(in, "random")
+	}
+}
+
+// carrySizes: lengths around the 8-bit and 9-bit carries of a length field
+var carrySizes = []int{253, 254, 255, 256, 257, 258, 509, 510, 511, 512, 513, 514}
+
+func letters(c *vh.Ctx, n int) []byte {
+	b := make([]byte, n)
+	for j := range b {
+		b[j] = "abcdefghijklmnopqrstuvwxyz0123456789-"[c.Intn(37)]
+	}
+	return b
+}
+
+// genCarry: every length-prefixed field of every built-in extension and of the hello itself is given
+// sizes that put its own length, and each enclosing length, at 253..258 and 509..514 (lost-carry bugs)
+func genCarry(c *vh.Ctx, emit func(*input, string)) {
+	one := func(e extIn) {
+		in := baseCfg(c)
+		in.Exts = []extIn{e}
+		emit(in, "carry")
+	}
+	// server_name: one name; list body = 3+n, extension body = 5+n
+	for _, n := range []int{1, 63, 250, 251, 252, 253} {
+		one(extIn{T: "sni", Names: [][]byte{letters(c, n)}})
+	}
+	for _, t := range carrySizes {
+		for _, off := range []int{3, 5} { // the list body, then the extension body, at the boundary
+			if n := t - off; n > 0 {
+				one(extIn{T: "sni", Names: [][]byte{letters(c, n)}})
+			}
+		}
+	}
+	// several names summing to those sizes (encoded well-formed, refused by the parser)
+	for _, t := range carrySizes {
+		a := 1 + c.Intn(100)
+		if b := t - 6 - a; b > 0 {
+			one(extIn{T: "sni", Names: [][]byte{letters(c, a), letters(c, b)}})
+		}
+	}
+	// ALPN: protocol list body = sum(1+len), extension body = 2 + that
+	for _, t := range carrySizes {
+		for _, off := range []int{0, 2} {
+			rest := t - off
+			var ps [][]byte
+			for rest > 0 {
+				l := rest - 1
+				if l > 255 {
+					l = 200 + c.Intn(56)
+				}
+				if l == 0 { // a 1-byte remainder cannot be an entry: grow the previous one
+					break
+				}
+				ps = append(ps, letters(c, l))
+				rest -= 1 + l
+			}
+			if len(ps) > 0 {
+				one(extIn{T: "alpn", Names: ps})
+			}
+		}
+	}
+	for _, l := range []int{1, 254, 255} {
+		one(extIn{T: "alpn", Names: [][]byte{letters(c, l)}})
+	}
+	// supported_groups / signature_algorithms: 2n bytes, extension body 2n+2
+	for _, n := range []int{125, 126, 127, 128, 129, 253, 254, 255, 256, 257} {
+		one(extIn{T: "curves", U16: pickFrom(c, defCurves, n)})
+		one(extIn{T: "sigalgs", U16: pickFrom(c, sigAlgs, n)})
+	}
+	// ec_point_formats: uint8 length
+	for _, n := range []int{1, 252, 253, 254, 255} {
+		one(extIn{T: "points", B: make([]byte, n)})
+	}
+	// session_ticket: the extension length itself
+	for _, t := range carrySizes {
+		one(extIn{T: "ticket", B: c.Bytes(t)})
+	}
+	// the hello: session id, cipher-suite list, extension block total, handshake length
+	for _, n := range []int{0, 1, 31, 32, 254, 255} {
+		in := baseCfg(c)
+		in.SID = c.Bytes(n)
+		emit(in, "carry")
+	}
+	for _, n := range []int{126, 127, 128, 129, 254, 255, 256, 257} {
+		in := baseCfg(c)
+		in.Suites = pickFrom(c, implSuites, n)
+		emit(in, "carry")
+	}
+	for _, t := range carrySizes {
+		// extension block of exactly t bytes: a few small extensions and a ticket that fills the rest
+		in := baseCfg(c)
+		in.Exts = []extIn{{T: "ems"}, {T: "reneg"}, {T: "status"}}
+		if fill := t - 4 - 5 - 9 - 4; fill >= 0 {
+			in.Exts = append(in.Exts, extIn{T: "ticket", B: c.Bytes(fill)})
+			emit(in, "carry")
+		}
+		// handshake body of exactly t bytes
+		in = baseCfg(c)
+		in.SID = nil
+		in.Suites = pickFrom(c, implSuites, 3)
+		fixed := 2 + 32 + 1 + 2 + 6 + 2 + 2 // version, random, sid, suites, compression, block length
+		if fill := t - fixed - 4; fill >= 0 {
+			in.Exts = []extIn{{T: "ticket", B: c.Bytes(fill)}}
+			emit(in, "carry")
+		}
 	}
 }
 
